@@ -1204,6 +1204,46 @@ fn parse_expression(
     id_gen: &mut IdGenerator,
     diagnostics: &mut Vec<ParseError>,
 ) -> Expression {
+    let mut expr = parse_expression_with_postfix(tokens, id_gen, diagnostics);
+
+    // Parse infix binary operators, such as `foo + bar`. Every
+    // operator has the same precedence and is left-associative, so
+    // `x OP y OP z` is the same as `(x OP y) OP z`, for chains of
+    // any length.
+    loop {
+        let start_idx = tokens.idx;
+        let Some(token) = tokens.peek() else {
+            break;
+        };
+        let Some(op) = token_as_binary_op(&token) else {
+            break;
+        };
+        tokens.pop();
+
+        let rhs_expr = parse_expression_with_postfix(tokens, id_gen, diagnostics);
+
+        expr = Expression::new(
+            Position::merge(&expr.position, &rhs_expr.position),
+            Expression_::BinaryOperator(Rc::new(expr), op, Rc::new(rhs_expr)),
+            id_gen.next(),
+        );
+
+        assert!(
+            tokens.idx > start_idx,
+            "The parser should always make forward progress."
+        );
+    }
+
+    expr
+}
+
+/// Parse an expression followed by any number of calls, method calls,
+/// dot accesses or namespace accesses, but no infix operators.
+fn parse_expression_with_postfix(
+    tokens: &mut TokenStream,
+    id_gen: &mut IdGenerator,
+    diagnostics: &mut Vec<ParseError>,
+) -> Expression {
     let mut expr = parse_expression_no_trailing(tokens, id_gen, diagnostics);
 
     loop {
@@ -1309,51 +1349,6 @@ fn parse_expression(
                         Expression_::NamespaceAccess(Rc::new(expr), variable),
                         id_gen.next(),
                     );
-                }
-            }
-            Some(token) if token_as_binary_op(&token).is_some() => {
-                // Parse an infix binary operator, such as `foo +
-                // bar`. We currently assume that every operator has
-                // the same precedence and is left-associative, so
-                // `x OP y OP z` is the same as `(x OP y) OP z`
-                tokens.pop();
-
-                let rhs_expr = parse_expression(tokens, id_gen, diagnostics);
-
-                match rhs_expr.expr_ {
-                    Expression_::BinaryOperator(next_lhs, next_op, next_rhs) => {
-                        // Our recursive logic gives us right-associativity,
-                        // i.e. `x OP (y OP z)`, convert to `(x OP y) OP z`.
-
-                        let expr_pos = expr.position.clone();
-
-                        let new_inner = Expression::new(
-                            Position::merge(&expr_pos, &next_lhs.position),
-                            Expression_::BinaryOperator(
-                                Rc::new(expr),
-                                token_as_binary_op(&token).unwrap(),
-                                next_lhs,
-                            ),
-                            id_gen.next(),
-                        );
-
-                        expr = Expression::new(
-                            Position::merge(&expr_pos, &next_rhs.position),
-                            Expression_::BinaryOperator(Rc::new(new_inner), next_op, next_rhs),
-                            id_gen.next(),
-                        );
-                    }
-                    _ => {
-                        expr = Expression::new(
-                            Position::merge(&expr.position, &rhs_expr.position),
-                            Expression_::BinaryOperator(
-                                Rc::new(expr),
-                                token_as_binary_op(&token).unwrap(),
-                                Rc::new(rhs_expr),
-                            ),
-                            id_gen.next(),
-                        );
-                    }
                 }
             }
             _ => break,
